@@ -129,17 +129,26 @@ def _extra(f, a, k):
             out[i] = x.sqrt() if mask[i] else SymReal(z3.RealVal(0))
         return True, out
     if f is np.interp:
+        # NumPy's documented semantics, including the left / right arguments the caller passes
         x, xp, fp = a[0], a[1], a[2]
+        if len(a) > 5 or k.get('period') is not None or (len(a) > 5 and a[5] is not None):
+            raise Inconclusive('np.interp with period= is not modelled')
+
+        def term(v):
+            return v.e if isinstance(v, SymReal) else rval(v)
+        left = a[3] if len(a) > 3 else k.get('left')
+        right = a[4] if len(a) > 4 else k.get('right')
         out = np.empty(len(x), dtype=object)
         for i, xi in enumerate(x):
-            xe = xi.e if isinstance(xi, SymReal) else rval(xi)
-            xs = [rval(v) for v in xp]
-            fs = [rval(v) for v in fp]
-            e = fs[-1]
+            xe = term(xi)
+            xs = [term(v) for v in xp]
+            fs = [term(v) for v in fp]
+            e = fs[-1] if right is None else term(right)
+            e = z3.If(xe <= xs[-1], fs[-1], e)
             for j in range(len(xs) - 2, -1, -1):
                 seg = fs[j] + (xe - xs[j]) * (fs[j + 1] - fs[j]) / (xs[j + 1] - xs[j])
                 e = z3.If(xe < xs[j + 1], seg, e)
-            e = z3.If(xe <= xs[0], fs[0], e)
+            e = z3.If(xe < xs[0], fs[0] if left is None else term(left), e)
             out[i] = SymReal(e)
         return True, out
     return False, None
@@ -310,7 +319,11 @@ def run_task(task):
         x = z3.Real('x')
         ctx.inputs['x'] = x
         scaled = [1.0, 2.5, 4.0, 9.0][:n]            # inputs of the interpolation ("scaled values")
-        pre = [10.0, -3.0, 7.5, 8.0][:n]             # outputs ("pre-scaled values")
+        pre = []                                     # outputs ("pre-scaled values"): solver variables
+        for i in range(n):
+            v = z3.Real('f%d' % i)
+            ctx.inputs['f%d' % i] = v
+            pre.append(SymReal(v))
         if task['order'] == 'dec':
             scaled_p, pre_p = scaled[::-1], pre[::-1]
         else:
@@ -322,12 +335,12 @@ def run_task(task):
             props['NI_Scale[0]_Table_Scaled_Values[%d]' % i] = scaled_p[i]
         s = sc.TableScaling.from_properties(props, 0)
         out = s.scale(rarr([x]))
-        xs, fs = [rval(v) for v in scaled], [rval(v) for v in pre]
+        xs, fs = [rval(v) for v in scaled], [v.e for v in pre]
         exp = fs[-1]
         for j in range(n - 2, -1, -1):
             exp = z3.If(x < xs[j + 1], fs[j] + (x - xs[j]) * (fs[j + 1] - fs[j]) / (xs[j + 1] - xs[j]), exp)
         exp = z3.If(x <= xs[0], fs[0], exp)
-        _check(ctx, out[0].e != exp, 'table', lambda m: _vals(m, dict(x=x)))
+        _check(ctx, out[0].e != exp, 'table', lambda m: _vals(m, dict(x=x, **{'f%d' % i: pre[i].e for i in range(n)})))
         ctx.note('table')
 
     fn = dict(rtd=rtd, rtdneg=rtdneg, rtdroot=rtdroot, thermistor=thermistor, strain=strain, poly=polyf, table=table)[kind]
@@ -415,6 +428,29 @@ def replay(art):
             got = float(sc.PolynomialScaling(cs, RAW).scale(np.array([v['x']]))[0])
             exp = sum(c * v['x'] ** i for i, c in enumerate(cs))
             if not rel(got, exp):
+                return dict(sig=signature(dict(task=task, what=what)), got=got, expected=exp, params=v)
+            return None
+        if kind == 'table':
+            n = task['n']
+            scaled = [1.0, 2.5, 4.0, 9.0][:n]
+            pre = [v.get('f%d' % i, 0.0) for i in range(n)]
+            sp, pp = (scaled[::-1], pre[::-1]) if task['order'] == 'dec' else (scaled, pre)
+            props = {'NI_Scale[0]_Table_Pre_Scaled_Values_Size': n, 'NI_Scale[0]_Table_Scaled_Values_Size': n,
+                     'NI_Scale[0]_Table_Input_Source': RAW}
+            for i in range(n):
+                props['NI_Scale[0]_Table_Pre_Scaled_Values[%d]' % i] = pp[i]
+                props['NI_Scale[0]_Table_Scaled_Values[%d]' % i] = sp[i]
+            x = v.get('x', 0.0)
+            got = float(sc.TableScaling.from_properties(props, 0).scale(np.array([x]))[0])
+            # clamped piecewise-linear interpolation, written out
+            if x <= scaled[0]:
+                exp = pre[0]
+            elif x >= scaled[-1]:
+                exp = pre[-1]
+            else:
+                j = max(i for i in range(n - 1) if scaled[i] <= x)
+                exp = pre[j] + (x - scaled[j]) * (pre[j + 1] - pre[j]) / (scaled[j + 1] - scaled[j])
+            if not (rel(got, exp) or abs(got - exp) <= 1e-9):
                 return dict(sig=signature(dict(task=task, what=what)), got=got, expected=exp, params=v)
             return None
     except Exception as e:
